@@ -49,8 +49,12 @@ def contentOf : List LOp → Bytes
   | .save _ _ :: rest => contentOf rest
   | .block _ data :: rest => data.toList ++ contentOf rest
 
-/-- the whole frame for a schedule -/
-def frame (E : Env) (hashOf : Array UInt8 → Bool → Nat → Nat) (p : Prefs) (ops : List LOp) : Bytes :=
-  headerL E p ++ blocksOf E hashOf p {} ops ++ encLE 4 0 ++ (if p.contentChecksum then encLE 4 (E.hash (contentOf ops)) else [])
+/-- the whole frame for a schedule, the LZ4 stream of the compression context being in state `S0` when the first block arrives (`{}` for a context that
+    starts fresh; after earlier frames: whatever `LZ4_resetStream_fast` made of what they left) -/
+def frameFrom (E : Env) (hashOf : Array UInt8 → Bool → Nat → Nat) (p : Prefs) (S0 : FastX.XState) (ops : List LOp) : Bytes :=
+  headerL E p ++ blocksOf E hashOf p S0 ops ++ encLE 4 0 ++ (if p.contentChecksum then encLE 4 (E.hash (contentOf ops)) else [])
+
+/-- the whole frame for a schedule on a fresh context -/
+def frame (E : Env) (hashOf : Array UInt8 → Bool → Nat → Nat) (p : Prefs) (ops : List LOp) : Bytes := frameFrom E hashOf p {} ops
 
 end LZ4V.Model.FrameLinked
